@@ -6,6 +6,7 @@ package c08
 import (
 	"encoding/json"
 	"fmt"
+	"net/http"
 	"strings"
 	"testing"
 
@@ -23,9 +24,10 @@ const rule = "case = a history: 0..5 registrations the statement obliges the rou
 	"non-trivial = a MUST_REJECT candidate after >=1 accepted route, or an accepted candidate that is optional, match-all, has a user group or a metacharacter literal; distinct by case text"
 
 var assumptions = []string{
-	"shapes the statement does not classify (bind with a literal value other than **, {**} or a match-all list mixed with other elements, '/a/b' next to '/a/?b', a match-all leaf next to a different match-all subtree at one position, bind named route) are EITHER: only 'no panic during requests' is required",
+	"shapes the statement does not classify (bind with a literal value other than **, {**} or a match-all list mixed with other elements, a match-all leaf next to a different match-all subtree at one position, bind named route) are EITHER: only 'no panic during requests' is required",
 	"an expression 'does not compile' when regexp.Compile of the expression on its own fails",
-	"method names are compared case-insensitively, '*' means all nine methods",
+	"'*' means all nine methods; a method name in another case, with blanks around it, an empty item of a comma list or a method named twice are spellings the statement does not classify (EITHER); an item that is no method at all must be refused",
+	"'/a/b' next to '/a/?b' (the long form of the optional route is the other route) must be refused: two routes with the same long-form path (F12)",
 }
 
 func TestMain(m *testing.M) { evid.Main(m, "C08", rule, assumptions) }
@@ -53,13 +55,19 @@ func candidateMethods(c Case) (methods []string, unknown, spelling bool) {
 		seen := map[string]bool{}
 		for _, item := range strings.Split(c.Final.M, ",") {
 			name := strings.TrimSpace(item)
-			ms := model.ExpandMethod(name)
-			if ms == nil {
-				unknown = true // "", "GET POST", ... are not methods
+			if name == "" {
+				// "GET,", ",GET", "GET,,POST": whether an empty item is an error or
+				// nothing at all is list syntax, which the statement does not give
+				spelling = true
 				continue
 			}
-			if name != strings.ToUpper(name) {
-				spelling = true
+			ms := model.ExpandMethod(name)
+			if ms == nil {
+				unknown = true // "GET POST", "FETCH", ... are not methods
+				continue
+			}
+			if name != strings.ToUpper(name) || name != item {
+				spelling = true // another case, or blanks around the name
 			}
 			for _, m := range ms {
 				if seen[m] {
@@ -390,7 +398,7 @@ func treeRegister(c Case) (err error) {
 			if perr != nil {
 				return fmt.Errorf("prefix %q: %v", p.R, perr)
 			}
-			if _, aerr := route.AddRoute(tree, ast, nil); aerr != nil {
+			if _, aerr := route.AddRoute(tree, ast, func(http.ResponseWriter, *http.Request, route.Params) {}); aerr != nil {
 				return fmt.Errorf("prefix %q: %v", p.R, aerr)
 			}
 		}
@@ -398,7 +406,7 @@ func treeRegister(c Case) (err error) {
 		if perr != nil {
 			return perr
 		}
-		if _, aerr := route.AddRoute(tree, ast, nil); aerr != nil {
+		if _, aerr := route.AddRoute(tree, ast, func(http.ResponseWriter, *http.Request, route.Params) {}); aerr != nil {
 			return aerr
 		}
 	}
